@@ -396,7 +396,7 @@ def check(ctx):
         # is_running() / object identity under process_iter() traffic: the
         # ProcIter model (C04) predicts every is_running() answer on yielded objects
         from harness.props import c04
-        c04.replay_all(ctx, thorough)
+        c04.replay_all(ctx, thorough, vacuity=False, only=None if thorough else {"dump-1pid-1iter-full"})
 
 
 DUMPS = [
